@@ -203,6 +203,9 @@ def run(shard, spec):
         'ed-runs-128-z80': (True, 0x8000, [0x21, 0xED, 0xED, 0x22, 0x00, 0xC0, 0x22, 0x03, 0xC0, 0x22, 0x04, 0xC0, 0x22, 0x08, 0x90, 0x22, 0x0A, 0x90, 0x3E, 0xED, 0x32, 0x0C, 0x90,
                                           0x3A, 0x01, 0xC0, 0x18, 0xFE], 'z80', 14),
         # LD A,13; OUT (FD),A  (port 13FD: A15 and A1 clear - pages bank 3, ROM 1); LD A,(C000); LD (9000),A; LD A,(0001); LD (9001),A; JR $
+        # NOP x4; EI; HALT; INC A; LD (9000),A; JR $  - started 60 T-states before the end of the 128K frame (beyond the 48K frame length): the interrupt must still arrive on time after a resume
+        'late-frame-128-szx': (True, 0x8000, [0x00, 0x00, 0x00, 0x00, 0xFB, 0x76, 0x3C, 0x32, 0x00, 0x90, 0x18, 0xFE], 'szx', 30, 70848),
+        'late-frame-128-z80': (True, 0x8000, [0x00, 0x00, 0x00, 0x00, 0xFB, 0x76, 0x3C, 0x32, 0x00, 0x90, 0x18, 0xFE], 'z80', 30, 70848),
         'alias-port-128': (True, 0x8000, [0x3E, 0x13, 0xD3, 0xFD, 0x3A, 0x00, 0xC0, 0x32, 0x00, 0x90, 0x3C, 0x32, 0x00, 0xC0, 0x3A, 0x01, 0x00, 0x32, 0x01, 0x90, 0x18, 0xFE], 'szx', 12),
     }
     for k, name in enumerate(sorted(FIXED)):
@@ -225,7 +228,7 @@ def run(shard, spec):
             py = case.endswith('-py')
             N = 40
         if case in FIXED:
-            is128, org, code, ext, N = FIXED[case]
+            is128, org, code, ext, N = FIXED[case][:5]
             cmio, py, boundary = False, False, False
         if case == 'ay48':
             # LD BC,FFFD; LD A,1; OUT (C),A; LD B,BF; LD A,55; OUT (C),A; LD B,FF; 3 x NOP; IN A,(C); LD (9000),A; JR $
@@ -238,13 +241,18 @@ def run(shard, spec):
         opts = (['-c'] if cmio else []) + (['--python'] if py else [])
         frame = 70908 if is128 else 69888
         t0 = 20000 if case == 'witness' or case in FIXED or case == 'ay48' else None      # directed programs start well inside a frame
+        if case in FIXED and len(FIXED[case]) > 5:
+            t0 = FIXED[case][5]
         iff0 = 1
         if boundary:
             t0 = (70908 if is128 else 69888) - rng.randint(1, 44)
             iff0 = 0
             N = min(N, 40)
             shard.inc('observed:boundary_directed_programs')
-        fn0, r = start_snapshot(is128, org, code, rng, ext, t0, iff0)
+        # the start snapshot of the late-frame programs is written in the other format, so that a writer that loses the
+        # frame position cannot lose it in the same way for the uninterrupted run and for both legs
+        ext0 = ext if not str(case).startswith('late-frame') else {'szx': 'z80', 'z80': 'szx'}[ext]
+        fn0, r = start_snapshot(is128, org, code, rng, ext0, t0, iff0)
         rp = {'case': case, 'is128': is128, 'org': org, 'code': harness.b64(bytes(code)), 'ext': ext, 'opts': opts, 'N': N}
         if not r.ok:
             shard.violation('trace.py failed creating the start snapshot: %s' % r.describe(), rp)
